@@ -107,7 +107,12 @@ def classify_view(view, shape):
 
 VIEW_CLASSES = ["none", "ellipsis", "bare_slice", "slices_full", "slices_short", "int_slice_mix", "all_int",
                 "index_arrays", "bool_mask"]
-EXT_VIEW_CLASSES = ["neg_int_mix", "backward_slices", "neg_index_arrays", "index_arrays_nd"]
+EXT_VIEW_CLASSES = ["index_arrays_nd"]
+# Domain ruling: the statement lists the supported views (positive-step slices, integers, integer index arrays, masks);
+# backward-slice views, negative integers and negative entries of index arrays are outside it and are not generated here
+# (they stay in C01's schedules, where the oracle is a fresh twin under the same view).
+OUT_OF_DOMAIN_VIEW_KINDS = ("neg_int_mix", "backward_slices", "neg_index_arrays")
+C04_EXT_VIEW_KINDS = [k for k in L.EXT_VIEW_KINDS if k not in OUT_OF_DOMAIN_VIEW_KINDS]
 
 
 def edge_view(rng, shape, slices):
@@ -426,7 +431,7 @@ def make_views(rng, shape):
         views.append(common.make_view(rng, shape, kind))
         if kind in ("slice_tuple_full", "int_slice_mix", "index_arrays", "bool_mask") and rng.random() < 0.3:
             views.append(common.make_view(rng, shape, kind))
-    for kind in rng.sample(L.EXT_VIEW_KINDS, 4):
+    for kind in rng.sample(C04_EXT_VIEW_KINDS, 4):
         views.append(L.make_view_ext(rng, shape, kind))
     return views
 
@@ -585,8 +590,7 @@ def indexed_view(rng, shape):
     kind = rng.choice(["none", "slice_tuple_full", "slice_tuple_full", "int_slice_mix", "all_int", "index_arrays",
                        "ext"])
     if kind == "ext":
-        return L.make_view_ext(rng, shape, rng.choice(["np_int_mix", "neg_int_mix", "backward_slices", "neg_index_arrays",
-                                                       "np_all_int"]))
+        return L.make_view_ext(rng, shape, rng.choice(["np_int_mix", "np_all_int", "index_arrays_same_ndim"]))
     if kind == "int_slice_mix" and len(shape) == 1:
         kind = "all_int"
     return common.make_view(rng, shape, kind)
@@ -689,6 +693,11 @@ class IndexedBlock(object):
         d = W.d
         idx = rand_indices(rng, W.shape)
         style = rng.choice(["plain", "plain", "negative", "numpy_int"])
+        if style == "negative":
+            # domain ruling: the tree hands a negative index on to the parent's view, where slice-based selections do not
+            # treat it like numpy; negative integers are outside C04's view domain, so such index tuples are not driven
+            ctx.count("out_of_domain:negative_indexed_data_indices_not_driven")
+            style = "plain"
         idx = style_indices(rng, idx, W.shape, style)
         ctx.count("indexed_blocks:index_style:" + style)
         try:
@@ -995,7 +1004,7 @@ def floors(counters, tier):
                     ("masks_of_chunked_selection_kinds_with_small_chunk_limit", 30), ("data_blocks:large", 2),
                     ("data_blocks:zero_size", 2), ("masks_on_aligned_dataset:slice", 50),
                     ("masks_on_aligned_dataset:mask", 50), ("masks:join_ineq x none", 2), ("indexed_blocks:nested", 5),
-                    ("indexed_blocks:index_style:negative", 5), ("indexed_blocks:index_style:numpy_int", 5),
+                    ("indexed_blocks:index_style:numpy_int", 5),
                     ("indexed_indices_reassigned_back_to_the_first", 10), ("indexed:read_inside_change_message", 10)):
         if c(k, 0) < need:
             out.append("fewer than %d %s" % (need, k))
